@@ -259,7 +259,10 @@ def eval_case(case: dict) -> dict:
         sample = {"pages": summary, "picw_pich": [[b.props.get("picw"), b.props.get("pich"), b.props.get("picwgoal"), b.props.get("pichgoal")]
                                                    for pg in doc.pages for b in pg.blocks if b.kind == "pict"],
                   "file_bytes": [len(d) for d in datas]}
-    return {"viol": viol, "nt": nt, "cnt": cnt, "sample": sample}
+    res = {"viol": viol, "nt": nt, "cnt": cnt}
+    if sample is not None:
+        res["sample"] = sample
+    return res
 
 
 # --------------------------------------------------------------------------- enumeration
